@@ -2501,8 +2501,21 @@ impl Compiler {
         let result = self.assign_result_register(ctx)?;
         let stack_count = self.stack_count();
 
-        // Use the result register for comparisons, or a temporary
-        let comparison_register = result.register.map_or_else(|| self.push_register(), Ok)?;
+        let is_chained = matches!(
+            ctx.node(rhs),
+            Node::BinaryOp {
+                op: Less | LessOrEqual | Greater | GreaterOrEqual | Equal | NotEqual,
+                ..
+            }
+        );
+
+        // Use the result register for comparisons, or a temporary.
+        // Chained comparisons always use a temporary for the intermediate results,
+        // the result register could be one of the operands that are yet to be compared.
+        let comparison_register = match result.register {
+            Some(register) if !is_chained => register,
+            _ => self.push_register()?,
+        };
 
         let mut jump_offsets = Vec::new();
 
@@ -2556,13 +2569,19 @@ impl Compiler {
             .unwrap(self)?;
 
         // We only need to perform the final comparison if there's a result register
-        if let Some(result_register) = result.register {
+        if result.register.is_some() {
             let op = get_comparision_op(ast_op).map_err(|e| self.make_error(e))?;
-            self.push_op(op, &[result_register, lhs_register, rhs_register]);
+            self.push_op(op, &[comparison_register, lhs_register, rhs_register]);
         }
 
         for jump_offset in jump_offsets.iter() {
             self.update_offset_placeholder(*jump_offset)?;
+        }
+
+        if let Some(result_register) = result.register
+            && result_register != comparison_register
+        {
+            self.push_op(Op::Copy, &[result_register, comparison_register]);
         }
 
         self.truncate_register_stack(stack_count)?;
